@@ -170,7 +170,7 @@ PROPS["C10"] = dict(level="exploration",
                  essential={"C10": ["C10.gme-rpcs-ok", "C10.gme-updates", "C10.gme-outages", "C10.gme-config-reads"]},
                  timeout=dict(quick=900, thorough=7200), crash_props=["C10"]),
             dict(name="race-me", engine="merace", test="TestVerifRaceME", race=True, batches=dict(quick=6, thorough=12),
-                 essential={"C10": ["C10.me-reports", "C10.me-set-endpoints", "C10.me-current-reads"]},
+                 essential={"C10": ["C10.me-reports", "C10.me-set-endpoints", "C10.me-current-reads", "C10.me-constructions"]},
                  timeout=dict(quick=900, thorough=7200), crash_props=["C10"]),
             dict(name="race-stream", engine="streamrace", test="TestVerifRaceStream", race=True, batches=dict(quick=4, thorough=12),
                  essential={"C10": ["C10.stream-programs", "C10.stream-sends", "C10.stream-recvs"]},
